@@ -81,7 +81,7 @@ func safePool() []interface{} {
 		arr(obj("k", arr(obj("j", arr(tm(1700000000, 2, -3600, "W"), nil, i64(1)))))), // depth 5
 		obj("k", arr(arr(), obj(), "", nil)),
 		// integers beyond 2^53 which float64 holds exactly: comparison and index key agree on them
-		i64(1 << 60), i64(-(1 << 60)), u64(1 << 63), i64(1 << 62), i64(-(1 << 62)), // the last two are 2^63 apart
+		i64(1 << 60), i64(-(1 << 60)), u64(1 << 63), i64(3 << 61), i64(-(3 << 61)), // the last two are more than 2^63 apart
 		arr(arr(tm(946684800, 11, 3600, "CET"), tm(946684800, 12, 0, "UTC")), arr(tm(1700000000, 0, -3600, "W"))), // times in arrays in arrays
 		// zone offsets beyond +-9h, and a negative one that is not a whole number of minutes (a local mean time)
 		tm(946684800, 3, 34200, "ACST"), tm(946684800, 4, -36000, "HST"), tm(946684800, 8, 50400, "LINT"), tm(946684800, 9, -17762, "LMT"), tm(1000000000, 0, -59, "odd-"),
